@@ -1,4 +1,5 @@
 pub mod auth;
+pub mod conv;
 pub mod data;
 pub mod beh;
 pub mod edit;
